@@ -18,6 +18,8 @@ CHECKS = {
     "C14": {"harnesses": [("harness.events", "C14_FundamentalShock"), ("harness.events", "C14_MistakeShock")]},
     "C15": {"harnesses": [("harness.events", "C15_LimitRuleFn"), ("harness.events", "C15_LimitRuleRun")]},
     "C16": {"harnesses": [("harness.events", "C16_HaltTiming")]},
+    "C17": {"harnesses": [("harness.functions", "C17_IndexValues"), ("harness.functions", "C17_IndexInRun")]},
+    "C19": {"harnesses": [("harness.functions", "C19_TickRounding")]},
     "C08": {"harnesses": [("harness.ophistory", "C08_OpHistory")]},
     "C03": {"harnesses": [("harness.matching", "C03_ClearingRound"), ("harness.matching", "C03_Continuous")]},
 }
@@ -37,8 +39,6 @@ NOT_APPLICABLE = {
     "C06": "harness not built yet in this revision (planned: RN clock/series monitor)",
     "C07": "harness not built yet in this revision (planned: two-run comparison under nondeterministic global sources)",
     "C12": "harness not built yet in this revision",
-    "C17": "harness not built yet in this revision",
     "C18": "harness not built yet in this revision",
-    "C19": "harness not built yet in this revision",
     "C20": "harness not built yet in this revision",
 }
